@@ -5,7 +5,7 @@ from bounded import def_drv
 
 def run(tier, seed):
     res = PropertyResult('C20', 'other',
-                         'Tier P (unbounded, one function): DefWire.wire_points is executed symbolically on a point list of any length (locations with explicit or wildcard coordinates, with or '
+                         'Tier P (unbounded, two functions): DefWire.vias, for point lists without via arrays, is proved to list every via once, per type in file order, at the location in force (same wildcard recurrence) with its orientation or N; DefWire.wire_points is executed symbolically on a point list of any length (locations with explicit or wildcard coordinates, with or '
                          'without extension values, via entries in between) and proved to list exactly the locations, in order, with every wildcard replaced by the coordinate in force (ghost '
                          'recurrences RX/RY, position = number of locations before), [] for fewer than two locations. Tier B: bounded round-trip contract with a spec-side DEF printer (the LALR parser is outside the VC generator): for generated designs every extracted section '
                          '(units, die area, rows, tracks, via definitions, components, pins, net connectivity) equals the ghost design, and DefNet.wires / DefNet.vias give the '
